@@ -18,8 +18,10 @@ def gen_ops(rng, n, pooled_p):
         r = rng.random()
         if r < 0.22:
             ops.append(("np:%d" if rng.random() < pooled_p else "nh:%d") % rng.randrange(S))
-        elif r < 0.50:
+        elif r < 0.44:
             ops.append("as:%s:%s" % (loc(rng, 0.45), loc(rng, 0.35)))
+        elif r < 0.50:
+            ops.append("al:%s:%s" % (loc(rng, 0.30), loc(rng, 0.25)))
         elif r < 0.64:
             ops.append("rs:%s" % loc(rng, 0.25))
         elif r < 0.76:
@@ -51,13 +53,13 @@ class CHECK(vlib.Check):
     prop_file = "Properties_C10.v"
     model = ("Conc/RefExtract.v", "refcnt_driver.ml", "refcnt", ("ocommon.ml",))
     harness = dict(name="refcnt", src="refcnt_h.cpp", san="asan", link_lib=True)
-    modelled = ("util/RefCount.h: ConstRef/Ref SetRef (switch-items and same-item branches for counting refs), operator=, Reset/"
+    modelled = ("util/RefCount.h: ConstRef/Ref SetRef (switch-items branch, and the same-item branch converting a reference between counting and non-counting in both directions), operator=, Reset/"
                 "SetStatus, UnrefItem/UnrefItemAux (decrement-and-test, recycle or delete, cascade through member Refs), "
                 "SwapContents / move assignment, CastAwayConstFromRef, IsRefPrivate; system/AtomicCounter.h increment / "
                 "decrement-and-test as single atomic steps; util/ObjectPool.h: ObtainObject/ObtainObjectAux, ReleaseObject "
                 "(reset-to-default, critical section, slab deletion after unlock)/ReleaseObjectAux, Drain, ObjectSlab free "
                 "lists (PopObjectNode/PushObjectNode/InitializeObjectNode), slab list order, _curPoolSize, the conditions of "
-                "PerformSanityCheck.  Not modelled: non-counting (Dummy) refs, Neutralize, Clone/EnsureRefIsPrivate, Prefill, "
+                "PerformSanityCheck.  Not modelled: Neutralize, Clone/EnsureRefIsPrivate, Prefill, "
                 "SetMaxPoolSize, error-status payload of null refs, the _prev/_next pointer representation of the slab list.")
     premises = ["std::atomic increment / decrement-and-test are atomic and sequentially consistent; std::mutex excludes "
                 "(memory ordering is runtime residue; free-running ASan/TSan stress is supporting evidence only)",
@@ -65,7 +67,7 @@ class CHECK(vlib.Check):
                 "variables and member Refs of objects private to it (IsRefPrivate), and stores no reference to an object into itself",
                 "allocator: operator new returns memory not in use; _maxPoolSize + NUM_OBJECTS_PER_SLAB < 2^32 (saturation not modelled)"]
     rule = ("single-threaded histories over %d stack Ref slots and %d member Ref slots per object (new heap/pooled, assign, "
-            "reset, swap, const-cast, payload write, drain) generated from random.Random(seed) with slab sizes 1..4 and "
+            "non-counting alias, reset, swap, const-cast, payload write, drain) generated from random.Random(seed) with slab sizes 1..4 and "
             "_maxPoolSize 0..4; after EVERY operation the destruction/recycle/obtain events in order, every object's state, "
             "count, payload, members and birth/death counters, the stack, and the pool's slab order, free lists, "
             "_numNodesInUse, _nextIndex arrays and _curPoolSize are compared with the extracted model; the harness's own "
@@ -92,6 +94,17 @@ class CHECK(vlib.Check):
                             out.append(("directed-advance", "%d:%d:%d|%s" % (N, mx, S, ";".join(base + adv))))
                             out.append(("directed-advance", "%d:%d:%d|%s" % (N, mx, S, ";".join(base + ["cc:s0:m0.%d" % via] * ln))))
                             out.append(("directed-advance", "%d:%d:%d|%s" % (N, mx, S, ";".join(base + ["as:s2:s0", "rs:s0", "sw:s0:s2", "rs:s0"]))))
+        # directed: non-counting references; conversion of the same item between the two kinds, both directions;
+        # a dangling alias must not keep (or bring back) anything
+        for kind in ("nh", "np"):
+            for N in (1, 2):
+                for mx in (0, 2):
+                    hdr = "%d:%d:%d|" % (N, mx, S)
+                    out.append(("directed-alias", hdr + ";".join([kind + ":0", "al:s1:s0", "as:s1:s0", "rs:s0", "np:2", "rs:s1", "np:3"])))
+                    out.append(("directed-alias", hdr + ";".join([kind + ":0", "as:s1:s0", "al:s1:s0", "rs:s0", "np:2", "as:s3:s1", "rs:s1"])))
+                    out.append(("directed-alias", hdr + ";".join([kind + ":0", "al:s0:s0", "np:1", "as:s2:s0", "cc:s3:s0", "al:s3:s2", "as:s0:s0", "rs:s2"])))
+                    out.append(("directed-alias", hdr + ";".join([kind + ":0", kind + ":1", "al:m0.0:s1", "as:m0.1:s1", "al:m0.1:s1", "as:m0.0:s1", "rs:s1", "rs:s0", "np:2"])))
+                    out.append(("directed-alias", hdr + ";".join([kind + ":0", "al:s1:s0", "sw:s0:s1", "as:s2:s1", "rs:s1", "as:s0:s2", "cc:s0:s2", "rs:s2", "rs:s0"])))
         # directed: slab creation, recycling, deletion boundaries
         for N in (1, 2, 3, 4):
             for mx in (0, 1, 2, 4):
@@ -109,8 +122,8 @@ class CHECK(vlib.Check):
     def nontrivial(self, case):
         body = case.split("|", 1)[1]
         ops = body.split(";")
-        stores = any(o.startswith(("as:m", "cc:m", "sw:m")) or (o.startswith("sw:") and ":m" in o) for o in ops)
-        drops = any(o.startswith(("rs:", "as:s", "cc:s")) for o in ops)
+        stores = any(o.startswith(("as:m", "cc:m", "sw:m", "al:m")) or (o.startswith("sw:") and ":m" in o) for o in ops)
+        drops = any(o.startswith(("rs:", "as:s", "cc:s", "al:s")) for o in ops)
         return (stores and drops) or body.count("np:") >= 3
 
     def distribution(self, sc):
